@@ -41,6 +41,11 @@ theorem fact_constants :
     Facts.C19.ibltK ≤ Facts.C19.ibltNumBuckets ∧ Facts.C19.ibltK < 256 ∧ 10 ≤ Facts.C19.ibltMaxChain ∧
     Facts.C19.defaultMaxServiceReferenceDepth = 5 := by decide
 
+/-- every `http.Client` literal in http/client/client.go sets a Timeout (and `WithRedirectCheck` copies an existing client instead of building
+    one: its inventory has `deref:*s.client` and no literal): an outbound fetch on an untrusted URL cannot wait for ever on a stalling server -/
+theorem fact_http_clients_have_timeout :
+    Facts.C19.httpClientLiterals ≠ [] ∧ ∀ l ∈ Facts.C19.httpClientLiterals, "Timeout" ∈ l := by decide
+
 /-! ### crypto/dpop: Parse, HTU, HTM, Match, strip -/
 
 /-- No DPoP proof (whatever jwx reports about it, whatever JSON values the htu/htm claims hold) and no Match arguments
